@@ -133,6 +133,7 @@ def handle : DrvHandler := fun op args =>
       | none => some (err "not-enabled")
       | some s1 => some (ok (Json.mkObj [("status", statusJson s1.status),
           ("benign", .bool (benignView u s0 me prio view)),
+          ("sameVerdict", .bool (blockedB u view me prio now == blockedB u cur me prio now)),
           ("paused", match s1.ops me with | some o => .bool o.paused | none => .null),
           ("sleeping", match s1.ops me with | some o => .bool o.sleeping | none => .null)]))
   | "C13.run", [u, ids, labels] => do
